@@ -1,6 +1,7 @@
 package main
 
 import (
+	"go/token"
 	"strings"
 
 	"golang.org/x/tools/go/ssa"
@@ -25,10 +26,162 @@ func matchWorker(e *Eng, fn *ssa.Function) (*ssa.Function, *ssa.Call) {
 		}
 		w, call = f, c
 	}
-	if w == nil || len(w.Params) != 3 || w.Signature.Results().Len() != 2 {
+	if w == nil || len(w.Params) != 3 || w.Signature.Results().Len() < 1 || w.Signature.Results().Len() > 2 {
 		return nil, nil
 	}
 	return w, call
+}
+
+// routeMatchPointerAccumulator decides C07.1 for a worker W(node, labels, *list) bool that appends the matches
+// of a subtree to one list behind a pointer and answers whether the node matched:
+//
+//	(wrapper) Match hands W a fresh (nil) list of its own and returns that list;
+//	(a) the node's matchers fail ⇒ W answers false, consults no child, writes nothing;
+//	(b) otherwise every child is consulted in configuration order with the same labels and the same list;
+//	(c) the loop is left early only, and then always, after a child that matched and has continue unset;
+//	(d) the node itself is appended — the only write W makes — iff the list is as long after the children as it
+//	    was before them (the two lengths are read before and after the loop; they render alike and are told
+//	    apart by where they are read); (e) W then answers true.
+func routeMatchPointerAccumulator(o *Ob, fn, w *ssa.Function, outer *ssa.Call) {
+	e := o.E
+	wn := fnName(w)
+	o.Site(outer, "Route.Match delegates to "+wn+" (list behind a pointer)")
+	// wrapper
+	cell, isCell := outer.Call.Args[2].(*ssa.Alloc)
+	if o.Check(isCell && e.Arg(outer, 0) == "recv" && e.Arg(outer, 1) == "p0", "w-args", "the worker must start at the node Match is called on, with the given labels and a list of Match's own: "+clip(e.X(fn, outer)), outer) {
+		for _, r := range *cell.Referrers() {
+			if st, ok := r.(*ssa.Store); ok && st.Addr == ssa.Value(cell) {
+				o.Check(isNilConst(st.Val) || IsEmptySlice(st.Val), "w-args", "the list handed to the worker must start empty, starts as "+clip(e.X(fn, st.Val)), st)
+			}
+		}
+		for _, ret := range (&Walk{Fn: fn}).FromEntry().Returns() {
+			u, ok := ret.Results[0].(*ssa.UnOp)
+			o.Check(ok && u.X == ssa.Value(cell), "w-result", "Route.Match must return the list its worker filled, returns "+clip(e.X(fn, ret.Results[0])), ret)
+		}
+	}
+	accP := w.Params[2]
+	M := LRe(`^\(am/pkg/labels\.Matchers\)\.Matches\(recv\.Matchers, p0\)$`, true)
+	o.RequireFn(e.CountLitEdges(w, M)+e.CountLitEdges(w, M.Neg()) > 0, "no-matcher-test", wn+" does not branch on r.Matchers.Matches(lset)", w)
+	rec0 := o.One(e.Calls(w, wn), "b-rec", "recursive descent into children", w)
+	rec := rec0.(*ssa.Call)
+	var writes []*ssa.Store
+	for _, in := range AllInstrs(w) {
+		if st, ok := in.(*ssa.Store); ok && st.Addr == ssa.Value(accP) {
+			writes = append(writes, st)
+		}
+	}
+	// (a)
+	{
+		r := (&Walk{Fn: w, Cut: e.CutContradicting(M.Neg())}).FromEntry()
+		rets := r.Returns()
+		o.Require(len(rets) > 0, "a-noreturn", "no return reachable when matchers fail", nil)
+		for _, ret := range rets {
+			m := e.ValStrs(w, e.RetVals(r, ret, 0))
+			o.Site(ret, "return under ¬Matches = "+strings.Join(m, "|"))
+			o.Check(len(m) == 1 && m[0] == "false", "a-matched", "when the node's matchers do not match, the worker must say so but may answer "+strings.Join(m, "|"), ret)
+		}
+		o.Check(!r.Has(rec), "a-descend", "children are consulted although the node's matchers failed", rec)
+		for _, st := range writes {
+			o.Check(!r.Has(st), "a-nonnil", "the list is written although the node's matchers failed", st)
+		}
+	}
+	// (b)
+	o.Site(rec, "recursive call "+clip(e.X(w, rec)))
+	o.Check(e.Arg(rec, 0) == "recv.Routes[i]" && e.Arg(rec, 1) == "p0" && rec.Call.Args[2] == ssa.Value(accP), "b-args", "the recursive call must be on r.Routes[i] with the same label set and the same list, got "+clip(e.X(w, rec)), rec)
+	l := e.LoopOf(rec)
+	o.Require(l != nil, "b-noloop", "the recursive call is not inside a loop over the children", rec)
+	coll, kind := e.RangeOver(l)
+	o.Check(coll == "recv.Routes" && kind == "index", "b-range", "the loop must visit r.Routes in ascending index order, ranges over "+coll+" ("+kind+")", rec)
+	{
+		bi, _ := l.BodyEntry()
+		r := (&Walk{Fn: w, Barrier: IsInstr(rec)}).FromEdge(l.Header, bi)
+		for _, ex := range e.EarlyExits(l) {
+			o.Check(!r.Has(ex) || ex.Block() == l.Header, "b-skip", "an iteration can leave or skip without asking the child", ex)
+		}
+		for _, be := range l.Back {
+			o.Check(!r.Edge[be], "b-skip-continue", "an iteration can continue to the next child without asking this one", rec)
+		}
+	}
+	// (c)
+	matched := L(e.X(w, rec), true)
+	noCont := L("recv.Routes[i].Continue", false)
+	o.LoopExitsGuarded(l, "c-exit-matched", "leaving the child loop early requires that the child matched", matched)
+	o.LoopExitsGuarded(l, "c-exit-continue", "leaving the child loop early requires that the child has continue unset", noCont)
+	{
+		bi, _ := l.BodyEntry()
+		r := (&Walk{Fn: w, Cut: e.CutContradicting(matched, noCont)}).FromEdge(l.Header, bi)
+		o.Check(e.CountLitEdges(w, noCont)+e.CountLitEdges(w, noCont.Neg()) > 0, "c-no-continue-test", "the loop does not test the child's Continue flag", rec)
+		o.Check(e.CountLitEdges(w, matched)+e.CountLitEdges(w, matched.Neg()) > 0, "c-no-matched-test", "the loop does not test whether the child matched", rec)
+		for _, be := range l.Back {
+			o.Check(!r.Edge[be], "c-must-stop", "after a matching child without continue the search must stop, but the loop can go on to the next sibling", rec)
+		}
+	}
+	// (d)
+	if o.Check(len(writes) == 1, "e-foreign", "the worker must write the list in exactly one place (adding the node itself), writes it in "+itoa(len(writes)), rec) {
+		st := writes[0]
+		ap, isAp := st.Val.(*ssa.Call)
+		okSelf := isAp && isBuiltinCall("append")(ap)
+		if okSelf {
+			base, isLoad := ap.Call.Args[0].(*ssa.UnOp)
+			els := VariadicElems(ap)
+			okSelf = isLoad && base.X == ssa.Value(accP) && len(els) == 1 && e.X(w, els[0]) == "recv"
+		}
+		o.Check(okSelf, "e-foreign", "what is added to the matches must be the node itself, appended to the list: "+clip(e.X(w, st.Val)), st)
+		o.Site(st, "the node itself is added")
+		// the test "the list did not grow": len(list before the children) == len(list after them)
+		lenAt := func(v ssa.Value) (*ssa.UnOp, bool) {
+			c, ok := v.(*ssa.Call)
+			if !ok || !isLenCall(c) {
+				return nil, false
+			}
+			u, ok := c.Call.Args[0].(*ssa.UnOp)
+			return u, ok && u.X == ssa.Value(accP)
+		}
+		var test *ssa.If
+		for _, b := range w.Blocks {
+			if len(b.Instrs) == 0 {
+				continue
+			}
+			iff, ok := b.Instrs[len(b.Instrs)-1].(*ssa.If)
+			if !ok {
+				continue
+			}
+			c, ok := iff.Cond.(*ssa.BinOp)
+			if !ok || c.Op != token.EQL {
+				continue
+			}
+			x, okx := lenAt(c.X)
+			y, oky := lenAt(c.Y)
+			if !okx || !oky {
+				continue
+			}
+			before, after := x, y
+			if l.Blocks[before.Block().Index] || !dominates(before.Block(), l.Header) {
+				before, after = y, x
+			}
+			okB := !l.Blocks[before.Block().Index] && dominates(before.Block(), l.Header)
+			okA := !l.Blocks[after.Block().Index] && !dominates(after.Block(), l.Header)
+			if okB && okA {
+				test = iff
+			}
+		}
+		if o.Check(test != nil, "d-self-forced", "when no child matched the node itself must be returned: the worker no longer compares the length of the list before and after the children", st) {
+			o.Check(test.Block().Succs[0] == st.Block() || dominates(test.Block().Succs[0], st.Block()), "d-self-guard", "adding the node itself must happen exactly when the list did not grow", st)
+			r := (&Walk{Fn: w, Barrier: IsInstr(st)}).FromEdge(test.Block(), 0)
+			o.Check(len(r.Returns()) == 0, "d-self-forced", "when no child matched the node itself must be returned", st)
+			r2 := (&Walk{Fn: w}).FromEdge(test.Block(), 1)
+			o.Check(!r2.Has(st), "d-self-guard", "the node itself is added although a child already matched", st)
+		}
+	}
+	// (e)
+	{
+		r := (&Walk{Fn: w, Cut: e.CutContradicting(M)}).FromEntry()
+		for _, ret := range r.Returns() {
+			m := e.ValStrs(w, e.RetVals(r, ret, 0))
+			o.Site(ret, "returns "+strings.Join(m, "|"))
+			o.Check(len(m) == 1 && m[0] == "true", "e-matched", "a node whose matchers match must report that it matched, may answer "+strings.Join(m, "|"), ret)
+		}
+	}
 }
 
 // routeMatchAccumulator decides C07.1 for the worker form.  With W(node, list, labels) = (list', matched):
@@ -203,6 +356,11 @@ func init() {
 		fn := o.Fn("(*am/dispatch.Route).Match")
 		M := LRe(`\(am/pkg/labels\.Matchers\)\.Matches\(recv\.Matchers, p0\)`, true)
 		if e.CountLitEdges(fn, M)+e.CountLitEdges(fn, M.Neg()) == 0 {
+			if w, call := matchWorker(e, fn); w != nil && w.Signature.Results().Len() == 1 {
+				routeMatchPointerAccumulator(o, fn, w, call)
+				o.MinSites(3)
+				return
+			}
 			if w, call := matchWorker(e, fn); w != nil {
 				routeMatchAccumulator(o, fn, w, call)
 				o.MinSites(3)
